@@ -306,8 +306,8 @@ def a_std(vals):
 
 
 def a_count(vals):
-    # "number of non-NA cells"
-    return len(_nn(vals))
+    # "number of non-NA cells": NaN is a missing cell too
+    return len([v for v in _nn(vals) if not (isinstance(v, float) and math.isnan(v))])
 
 
 def a_size(vals):
@@ -325,7 +325,7 @@ def a_all(vals):
 
 
 def a_any(vals):
-    return any(_b(v) for v in vals)
+    return any(_b(v) for v in vals if v is not None)
 
 
 def a_any_value(vals):
@@ -802,7 +802,7 @@ def _agg(op, cls, expression, col, ref, **kw):
 add("sum", "e", "x.sum()", "agg", [Variant("col", [F("x", null=True)], lambda p: call("sum", c("x")), a_sum)])
 for _cls in ("g", "p"):
     add("_size", _cls, "_size()", "agg", [Variant("noarg", [], lambda p: call("_size"), a_size)])
-    _agg("count", _cls, "z.count()", F("z", null=True), a_count)
+    _agg("count", _cls, "z.count()", F("z", null=True, nan=True), a_count)  # NaN is a missing cell ("non-NA cells")
     _agg("max", _cls, "x.max()", F("x", null=True), a_max)
     _agg("mean", _cls, "x.mean()", F("x", null=True), a_mean)
     _agg("median", _cls, "x.median()", F("x", null=True), a_median)
@@ -814,7 +814,7 @@ for _cls in ("g", "p"):
     _agg("sum", _cls, "x.sum()", F("x", null=True), a_sum)
     add("sum", _cls, "(1).sum()", "agg", [Variant("lit", [], lambda p: call("sum", lit(1)), lambda vals: len(vals))])
 _agg("all", "p", "a.all()", B("a"), a_all)
-_agg("any", "p", "a.any()", B("a"), a_any)
+_agg("any", "p", "a.any()", B("a", null=True), a_any)  # a missing value is "not true" on every backend (all() differs: caveat)
 _agg("any_value", "up", "x.any_value()", F("x"), a_any_value)
 add(
     "_ngroup",
